@@ -231,6 +231,11 @@ def item_bytes(g, env):
             kk = int(inner.get((), 0))
             e = sym.ite(g["cond"], const(kk, "usize"), const(0, "usize"), "usize")
             return env.poly(e)
+        if len(inner) == 1:
+            (mono, c), = inner.items()
+            if len(mono) == 1 and c == 1:
+                e = sym.ite(g["cond"], sym.sym(mono[0], None, 0, None), const(0), None)
+                return env.poly(e)
         return {("optional?",): 1}
     return {("?" + k,): 1}
 
